@@ -198,11 +198,11 @@ def source_for(carrier, d, ctxs, layout, tmp, k):
     if carrier == "stringio_json":
         return io.StringIO(json.dumps(d))
     if carrier in ("path_yaml", "pathobj_yaml"):
-        p = os.path.join(tmp, f"c{k}.yaml")
+        p = os.path.join(tmp, f"qc_config_{k % 3}.yaml")      # a few file names, rewritten again and again
         Path(p).write_text(yaml_text(d))
         return p if carrier == "path_yaml" else Path(p)
     if carrier == "path_json":
-        p = os.path.join(tmp, f"c{k}.json")
+        p = os.path.join(tmp, f"qc_config_{k % 2}.json")
         Path(p).write_text(json.dumps(d))
         return p
     if carrier == "xr_global_json":
@@ -257,7 +257,7 @@ def run(out: Outcome, drv):
                 "unparsable regions, 1..3 streams, any subset of the qartod/argo/axds tests with scalar / list / list-of-mappings / empty "
                 "/ absent parameters, unknown modules and tests inserted at random positions) written in each expressible layout "
                 "(contexts / context / streams / modules) and delivered through 12 carriers (dict, OrderedDict, YAML and JSON text, "
-                "StringIO, str and Path file paths, xarray global attribute as JSON or YAML, per-variable xarray attributes); "
+                "StringIO, str and Path file paths (three file names, rewritten for every case), xarray global attribute as JSON or YAML, per-variable xarray attributes); "
                 "observed Config(source).calls compared as a multiset with IoosQc.specCalls; non-trivial = >= 2 calls")
     rng = gen.rng_for(out.seed, "C07")
     tmp = tempfile.mkdtemp(prefix="verif_c07_")
@@ -279,6 +279,12 @@ def run(out: Outcome, drv):
                     case = {"layout": layout, "carrier": carrier, "contexts": ctxs}
                     try:
                         obs = observe(src)
+                        if carrier in ("dict", "odict", "path_yaml", "path_json", "yaml", "json") and it % 2 == 0:
+                            # the same source object / text / path handed to Config a second time means the same thing
+                            again = observe(src)
+                            if again != obs:
+                                out.violation(f"{WHAT}: a second Config built from the same {carrier} source exposes different calls",
+                                              {"case": jsonable(case), "observed": obs, "observed_second": again})
                     except Exception as e:  # noqa: BLE001
                         obs = None
                         err = f"{type(e).__name__}: {e}"
